@@ -105,6 +105,7 @@ fn processes(ctx: &mut Ctx) {
         let expected = match pipeline::compile_source(&src) { Ok(b) => b, Err(_) => continue };
         let f = cli::write_file(&ctx.scratch, "s.fml", src.as_bytes());
         let ast = ctx.scratch.join("s.json");
+        let _ = std::fs::remove_file(&ast); let _ = std::fs::remove_file(ctx.scratch.join("s.bc"));
         let p = cli::simple(&exe, &["parse", f.to_str().unwrap(), "-o", ast.to_str().unwrap()]);
         let out = ctx.scratch.join("s.bc");
         let c1 = cli::simple(&exe, &["compile", ast.to_str().unwrap(), "-o", out.to_str().unwrap()]);
@@ -128,7 +129,40 @@ fn processes(ctx: &mut Ctx) {
     }
 }
 
+/// programs whose single method body is about 70 KB of code: only the uniform limits
+/// {1, 2, 3, 7, 64, 511, 4095, 65535} and one deviation at the first/middle/last call are enumerated
+/// (the full single-deviation set is quadratic in the number of write calls)
+fn huge(ctx: &mut Ctx) {
+    ctx.stage("in-process sinks: 70 KB method bodies (reduced schedule set)");
+    let body: String = (0..6500).map(|i| format!("print(\"~ ~\", {}, {})", i % 9, i % 7)).collect::<Vec<_>>().join("; ");
+    for text in [body.clone(), format!("function big(x) -> begin {} end; big(1)", body)] {
+        if ctx.take().is_none() { continue }
+        let ast = match pipeline::parse(&text) { Ok(a) => a, Err(_) => continue };
+        let prog = match pipeline::compile(&ast) { Ok(p) => p, Err(_) => continue };
+        let reference = match pipeline::serialize(&prog) { Ok(b) => b, Err(_) => continue };
+        ctx.count("programs", 1);
+        ctx.max("largest_program_bytes", reference.len() as u64);
+        let short = format!("{}... ({} chars, {} bytes of bytecode)", &text[..60], text.len(), reference.len());
+        ctx.nontrivial(short.as_bytes());
+        for via in [false, true] {
+            let (r0, got0, reqs) = drive(&prog, via, None, vec![]);
+            judge(ctx, &short, &reference, via, None, &[], &r0, &got0);
+            for k in [1usize, 2, 3, 7, 64, 511, 4095, 65535] {
+                let (r, got, _) = drive(&prog, via, Some(k), vec![]);
+                judge(ctx, &short, &reference, via, Some(k), &[], &r, &got);
+            }
+            for i in [0, reqs.len() / 2, reqs.len().saturating_sub(1)] {
+                for a in [Answer::Accept(0), Answer::Accept(1), Answer::Interrupted, Answer::Error] {
+                    let (r, got, _) = drive(&prog, via, None, vec![(i, a)]);
+                    judge(ctx, &short, &reference, via, None, &[(i, a)], &r, &got);
+                }
+            }
+        }
+    }
+}
+
 pub fn run(ctx: &mut Ctx) {
+    huge(ctx);
     ctx.stage("in-process sinks: string programs");
     for src in string_programs() {
         if ctx.take().is_none() { continue }
